@@ -104,6 +104,9 @@ type Client struct {
 	addr    *net.TCPAddr
 	faults  *simrt.ConnFaults
 	Redials int
+	// FragSeed != 0: every call is sent as an RPC record of several fragments (RFC 1831 sec. 10),
+	// sizes drawn from this seed (zero-length fragments included)
+	FragSeed uint64
 }
 
 // Dial opens a connection from addr ("ip:port").
@@ -132,7 +135,20 @@ func (e *ErrNoReply) Error() string { return "no reply: " + e.Cause.Error() }
 // RawCall sends one call and reads one reply record (no decoding of results).
 func (c *Client) RawCall(prog, vers, proc uint32, args []byte) (*nfsclient.Reply, error) {
 	call := nfsclient.Call{XID: uint32(c.W.xid.Add(1)), Prog: prog, Vers: vers, Proc: proc, Cred: c.Cred.auth(), Verf: nfsclient.AuthNone(), Args: args}
-	return c.Exchange(call.XID, nfsclient.Frame(call.Encode(), nil), prog, vers, proc)
+	body := call.Encode()
+	var frags []int
+	if c.FragSeed != 0 {
+		fr := simrt.NewRand(c.FragSeed + uint64(call.XID))
+		for left := len(body); left > 0 && len(frags) < 12; {
+			f := []int{0, 4, 24, 40, 1, 100}[fr.Int(6)]
+			if f > left {
+				f = left
+			}
+			frags = append(frags, f)
+			left -= f
+		}
+	}
+	return c.Exchange(call.XID, nfsclient.Frame(body, frags), prog, vers, proc)
 }
 
 // Exchange writes raw bytes and reads one reply, which must echo xid.
